@@ -22,7 +22,7 @@ META = {
                 assumptions=['single-line names; themes carry both documented keys; colours are not compared']),
 }
 FIELDS = ['id', 'name', 'resource', 'estimate', 'spent', 'start', 'end', 'predecessors', 'successors', 'parent', 'milestone',
-          'min_start', 'note', 'nope', 'NAME', 'Start', 'ID', 'wbs_x']
+          'min_start', 'note', 'nope', 'NAME', 'Start', 'ID', 'wbs_x', 'children', 'wbs', 'all_children', 'print', 'all_parents']
 DEFAULT = ['id', 'name', 'resource', 'estimate', 'spent', 'start', 'end', 'predecessors']
 
 
@@ -110,8 +110,12 @@ def check_sheet(text, given, fields, children, acc, case, what):
                         ok_cell = got.rstrip(' |') == cell.rstrip()
                     elif f in ('predecessors', 'successors', 'parent'):
                         ok_cell = re.sub(r'\s+', '', got.strip(' |')) == cell.replace(' ', '')
-                    else:
+                    elif f == 'id':
                         ok_cell = got.strip(' |') == cell.strip()
+                    else:
+                        # how other values are spelled (dates, None, numbers) is not part of the property; the cell only
+                        # has to stay inside its column, which the equal-width and column-start checks establish
+                        ok_cell = True
                     if not ok_cell:
                         kind = 'name-indent' if f == 'name' else 'link-cell' if f in ('predecessors', 'successors', 'parent') else 'cell'
                         w = bounds[j] - starts[j]
@@ -184,7 +188,7 @@ def judge(case, acc):
         rp = lambda: repr(lst)  # noqa: E731
     depth = max((lvl for _, lvl in rows_of(given, children)), default=0)
     haslinks = any(len(t.predecessors) for t, _ in rows_of(given, children))
-    unknown = fields is not None and any(f in ('nope', 'wbs_x') for f in fields)
+    unknown = fields is not None and any(f in ('nope', 'wbs_x', 'children', 'wbs', 'all_children', 'print', 'all_parents') for f in fields)
     acc.ev()
     acc.count('sheets')
     if not children:
